@@ -311,7 +311,7 @@ func c12AlwaysTeardown(e *Env, s *Sched) {
 		}
 	}
 	if hr == nil {
-		hr = e.FnQuiet(schedRel, "(*Scheduler).runHandlerNode")
+		hr = s.handlerRunner()
 	}
 	if hr != nil {
 		check(hr, "handler runner", isSetupCall)
